@@ -237,7 +237,7 @@ class Parser:
             elif type(tok) is defs.SpecialToken:
                 out.append(defs.ActionToken(tok.pos))
                 txt = self.parms.special_tokens[tok.txt]
-                out.append(defs.TextToken(tok.pos, txt))
+                out.append(defs.TextToken(tok.pos, txt, pos_fix=tok.pos_fix))
             elif type(tok) is defs.VerbatimToken:
                 if tok.environ:
                     # for Environ() entry in Parameters.environment_defs
